@@ -214,6 +214,11 @@ func mergeRootObjects(aTypes, bTypes map[string]*ast.Definition, a, b *ast.Defin
 			continue
 		}
 
+		// the lookup of one schema next to another schema's field of the same name with another signature
+		if rf := fields.ForName(f.Name); isNodeField(f) && rf != nil && !isNodeField(rf) {
+			return nil, fmt.Errorf("overlapping root types fields %s : %s", a.Name, f.Name)
+		}
+
 		if common.IsBuiltinName(f.Name) || isNodeField(f) {
 			continue
 		}
